@@ -106,6 +106,13 @@ func (in *Interp) runPath(fn *ssa.Function, argv []Value, p pendingPath) {
 				case budgetErr:
 					status = "budget"
 					in.cs.Inconclusive = append(in.cs.Inconclusive, "budget: "+x.what+" at "+in.errWhere)
+					if x.what == "instruction budget" {
+						// candidate for non-termination: a concrete input of this path is run natively under a
+						// time limit; only a native run that does not finish either is reported (kind "hang")
+						if m, res := in.pathModel(); res == Sat {
+							in.recordViolation(m, fmt.Sprintf("does not terminate: %d SSA instructions executed on one path without reaching the end of the harness", in.cfg.maxSteps), "hang", in.errWhere, nil)
+						}
+					}
 				case *goPanic:
 					status = "panic"
 					in.handlePanic(x)
